@@ -1178,4 +1178,18 @@ example :
     (match r with | .done _ => true | _ => false) = true ∧ ((0, 3) : Int × Int) ∈ r.trace ∧ ((1, 0) : Int × Int) ∉ r.trace := by
   refine ⟨by decide +kernel, by decide +kernel, by decide +kernel⟩
 
+/-- the hypotheses of `walk_covers_full_generic` on the field of the examples: its box `[-2, 2] × [0, 1] × [-2, 2]` contains the grid
+(`XL 0 = -2`, `XL 4 = 2`, same along `z`), and `max_time_of_impact = 2` is within `[0, Real::MAX]` -/
+example :
+    let q : Quant ℚ := ⟨Rat.floor, Rat.ceil, fun i => (i : ℚ)⟩
+    let h : HF3 ℚ := ⟨4, 4, ⟨4, 1, 4⟩, ⟨⟨-2, 0, -2⟩, ⟨2, 1, 2⟩⟩⟩
+    (h.aabb.mins.x ≤ XL id q h 0 ∧ XL id q h h.nj ≤ h.aabb.maxs.x) ∧ (h.aabb.mins.z ≤ ZL id q h 0 ∧ ZL id q h h.ni ≤ h.aabb.maxs.z) ∧
+      (2 : ℚ) ≤ @realMax ℚ (fieldNum ℚ id) := by
+  refine ⟨⟨?_, ?_⟩, ⟨?_, ?_⟩, ?_⟩
+  · simp only [XL, signedXAt, unitCellWidth, fieldNum_lit]; norm_num
+  · simp only [XL, signedXAt, unitCellWidth, fieldNum_lit]; norm_num
+  · simp only [ZL, signedZAt, unitCellHeight, fieldNum_lit]; norm_num
+  · simp only [ZL, signedZAt, unitCellHeight, fieldNum_lit]; norm_num
+  · unfold realMax; rw [fieldNum_ofRat]; exact_mod_cast (by decide +kernel : (2 : ℚ) ≤ mkRat (2 ^ 1024 - 2 ^ 971) 1)
+
 end C06
